@@ -4,6 +4,8 @@ Lean: Props.C09 (theorems about the shared layer-N model).  Tie: tier A (regener
 step-6 count kernels = model) + tier B (`debiasers_corr` for LS / QM / CDFt, `isimip_corr` for the ISIMIP window pipeline incl.
 zero-valued thresholds, `precip_qm_tie` / DrvPrecipQM for QuantileMapping with the hurdle / ignore-zeros / censored models).
 Oracle on the real code: for all pairs i, j of one window with x_i < x_j require out_i <= out_j.
+Known findings (recorded, not repaired): F16 (censored gamma model, two sub-threshold inputs), F22 (ISIMIP with
+event_likelihood_adjustment=True: `ela_cases` / `run_ela_case`, control run with the option off).
 """
 import random
 import warnings
@@ -23,6 +25,8 @@ IECDF_METHODS = ["inverted_cdf", "averaged_inverted_cdf", "closest_observation",
 # iecdf methods whose result is a copy of a sample value (rank transfer): no float slack at all
 DISCRETE_IECDF = ("inverted_cdf", "closest_observation")
 F16_SIGNATURE = {"what": "censored_qm_subthreshold_pair"}
+F22_SIGNATURE = {"what": "isimip_event_likelihood_adjustment_reorders"}
+KNOWN_SIGNATURES = (F16_SIGNATURE, F22_SIGNATURE)
 
 
 # ------------------------------------------------------------------ the property's relation
@@ -518,6 +522,81 @@ def run_isimip_case(var, overrides, stage, seed, dry=None, mode="normal"):
     i, j = v
     return ({"i": i, "j": j, "x_i": float(x[i]), "x_j": float(x[j]), "out_i": float(out[i]), "out_j": float(out[j]),
              "obs": o.tolist(), "cm_hist": h.tolist(), "cm_future": f.tolist(), "stage_input": x.tolist(), "slack_abs": slack}, info)
+
+
+# ------------------------------------------------------------------ ISIMIP with event likelihood adjustment (known finding F22)
+ELA_CANONICAL_SEED = 22  # the window quoted in known_findings.json / DESIGN.md §5 (independent of VERIF_SEED)
+
+
+def ela_data(seed):
+    """tie-free tas-like window (K): the three samples of `isimip_data("tas", …)` without far tails and without ties"""
+    nprs = np.random.RandomState(seed)
+    nO, nH, nF = (int(nprs.randint(25, 120)) for _ in range(3))
+    o, h, f = (nprs.normal(283 + 2 * k, 3 + k, n) for k, n in enumerate((nO, nH, nF)))
+    while np.unique(f).size != f.size:  # probability 0 for doubles drawn from a normal distribution
+        f = nprs.normal(287, 5, nF)
+    return o, h, f
+
+
+def run_ela_case(stage, seed):
+    """ISIMIP.from_variable("tas", detrending=False, event_likelihood_adjustment=E) for E = True and — the control, on the identical
+    data with the identical numpy seed — E = False; `stage` in {"step6", "window"} (public `step6` after `step4` / `step5`, or the whole
+    `_apply_on_window`).  The SAME pairwise order oracle and slack as `run_isimip_case`.
+    Returns (status, problem | None, info): status "holds" | "known-ela" (the option inverts a pair and the control preserves every order:
+    the recorded finding F22) | "violation" (the control inverts as well, or a run failed: ordinary violation)"""
+    _quiet()
+    res = {}
+    for ela in (True, False):
+        o, h, f = ela_data(seed)
+        deb = make_isimip("tas", {"detrending": False, "event_likelihood_adjustment": ela})
+        np.random.seed(seed % (2**31 - 1))
+        yO, yH, yF = (np.repeat(np.arange(2000, 2000 + (n + 9) // 10), 10)[:n] for n in (o.size, h.size, f.size))
+        x = f.copy()
+        with warnings.catch_warnings(), np.errstate(all="ignore"):
+            warnings.simplefilter("ignore")
+            try:
+                if stage == "window":
+                    out = deb._apply_on_window(o.copy(), h.copy(), f.copy(), yO, yH, yF)
+                else:
+                    o4, h4, f4 = deb.step4(o.copy(), h.copy(), f.copy())
+                    oF = deb.step5(o4.copy(), h4.copy(), f4.copy())
+                    x = f4.copy()
+                    out = deb.step6(o4.copy(), oF, h4.copy(), f4.copy())
+            except Exception as ex:  # noqa: BLE001  well-formed window: the step must return
+                res[ela] = ("malformed", f"{type(ex).__name__}: {str(ex)[:200]}", x, None, 0.0)
+                continue
+        out = np.asarray(out, dtype=float)
+        if out.shape != x.shape or not np.all(np.isfinite(out)):
+            res[ela] = ("malformed", f"result shape {out.shape} for {x.shape} / non-finite values", x, None, 0.0)
+            continue
+        slack = 1e-12 * scale_of(o, h, f, out)  # parametric step 6 (scipy.stats.norm): values computed by special functions
+        res[ela] = ("ok", order_violation(x, out, slack), x, out, slack)
+    o, h, f = ela_data(seed)
+    info = {"n": int(f.size), "sizes": [int(o.size), int(h.size), int(f.size)], "ties": int(f.size - np.unique(f).size)}
+    base = {"obs": o.tolist(), "cm_hist": h.tolist(), "cm_future": f.tolist()}
+    for ela in (False, True):  # a failure / an inversion of the control first: that is never the recorded finding
+        kind, v, x, out, slack = res[ela]
+        if kind == "malformed":
+            return "violation", {"malformed": v, "event_likelihood_adjustment": ela, **base}, info
+        if v is not None:
+            i, j = v
+            prob = {"i": i, "j": j, "x_i": float(x[i]), "x_j": float(x[j]), "out_i": float(out[i]), "out_j": float(out[j]),
+                    "event_likelihood_adjustment": ela, **base, "stage_input": x.tolist(), "slack_abs": slack}
+            if ela:
+                prob["control"] = "the identical call with event_likelihood_adjustment=False preserves the order of every pair"
+                prob["where"] = "event_likelihood_adjustment=True; control with the option off: order preserved"
+                return "known-ela", prob, info
+            prob["where"] = "control run, event_likelihood_adjustment=False"
+            return "violation", prob, info
+    return "holds", None, info
+
+
+def ela_cases(rng, tier, mult):
+    """(stage, numpy seed): the canonical window first (step 6 and the whole window), then windows of this run's own stream"""
+    cases = [("step6", ELA_CANONICAL_SEED), ("window", ELA_CANONICAL_SEED)]
+    for _ in range((2 if tier == "quick" else 60) * mult):
+        cases.append((rng.choice(["step6", "step6", "window"]), rng.randint(0, 2**31 - 2)))
+    return cases
 
 
 # ------------------------------------------------------------------ sequences on ONE debiaser object
@@ -1226,6 +1305,9 @@ def run(tier, res, force_search=False):
         "samples of size >= 2; ISIMIP: event_likelihood_adjustment = False, bounds enclose thresholds, family support inside the bounds (IsiLaws)",
         "the whole-window theorem (window_mono) assumes pairwise distinct step-4 draws (probability 1); tied draws are covered by the oracle only",
         "QuantileMapping with a precipitation model: non-negative data; censored model: the F16 pairs (two distinct sub-threshold inputs) are excluded from the theorem",
+        "ISIMIP with event_likelihood_adjustment = True: nothing positive is claimed — the guard of step6_mono is necessary (Props.C09.step6_ela_can_reorder, "
+        "witness on the model) and the real step 6 / window with the option on is run by the oracle against a control with the option off; an inversion "
+        "that only the option produces is the recorded known finding F22",
     ]
 
     ok = C.lean_phase(res, PROP, GEN, TARGETS)
@@ -1378,6 +1460,26 @@ def run(tier, res, force_search=False):
         case = {"what": name, "kind": "dated", "debiaser": kind, "params": params, "mode": mode, "np_seed": seed, **prob}
         problems.append((describe(name, prob), case, {"what": name}))
     res.extra["dated_cases_with_non_chronological_future"] = n_unordered
+    # event likelihood adjustment (documented non-default option): own PRNG stream.  The real step 6 / window with the option on, the
+    # identical call with the option off as control; an inversion that only the option produces is the recorded finding F22
+    rng_e = random.Random(C.seed() * 15485863 + 9093)
+    ela_stats = {"windows": 0, "inverted_with_option_only": 0, "ordinary_violations": 0}
+    for stage, seed in ela_cases(rng_e, tier, mult):
+        status, prob, info = run_ela_case(stage, seed)
+        name = f"ISIMIP/tas/{stage}:detrending=False,event_likelihood_adjustment=True"
+        hist["ela/" + stage] = hist.get("ela/" + stage, 0) + 1
+        ela_stats["windows"] += 1
+        res.count((name, info["n"] // 40), True)
+        if prob is None:
+            continue
+        case = {"what": name, "kind": "ISIMIP_ELA", "var": "tas", "stage": stage, "np_seed": seed, "sizes": info["sizes"], **prob}
+        if status == "known-ela":
+            ela_stats["inverted_with_option_only"] += 1
+            problems.append((describe(name, prob), case, dict(F22_SIGNATURE)))
+        else:
+            ela_stats["ordinary_violations"] += 1
+            problems.append((describe(name, prob), case, {"what": name + "/control"}))
+    res.extra["event_likelihood_adjustment_windows"] = ela_stats
     res.extra["oracle_cases"] = hist
     res.extra["oracle_skipped"] = skipped
     res.extra["f16_windows_with_inverted_subthreshold_pair"] = f16_hits
@@ -1385,12 +1487,17 @@ def run(tier, res, force_search=False):
     # ---- verdict
     seen = set()
     for desc, case, sig in problems:
-        key = sig.get("what") if sig == F16_SIGNATURE else (case["kind"], case["what"].split(":")[0])
+        key = sig.get("what") if sig in KNOWN_SIGNATURES else (case["kind"], case["what"].split(":")[0])
         if key in seen:
             continue
         seen.add(key)
         res.violations.append((desc, {"property": PROP, "failing_input": case, "signature": sig}))
-    real = [p for p in problems if p[2] != F16_SIGNATURE]
+    for desc, rp in res.violations:  # a recorded finding gets no violation file from `finish`: keep F22's failing input replayable
+        if rp.get("signature") == F22_SIGNATURE:
+            kf = C.match_known(PROP, rp)
+            if kf is not None:
+                C.write_replay(PROP, "known_" + kf.get("id", "finding"), dict(rp, seed=C.seed(), tier=tier))
+    real = [p for p in problems if p[2] not in KNOWN_SIGNATURES]
     if res.tie_broken and not real:
         res.violations.append(("proof obligation / correspondence no longer checks: " + "; ".join(res.tie_broken)[:600],
                                {"property": PROP, "failing_input": None, "broken": res.tie_broken, "mismatches": mismatches[:5]}))
@@ -1402,6 +1509,18 @@ def replay(data):
     fi = data.get("failing_input")
     if not fi:
         print("replay: no failing input recorded (broken proof obligation / correspondence):", data.get("broken"))
+        return 1
+    if fi["kind"] == "ISIMIP_ELA":  # event likelihood adjustment: the recorded finding F22, or an ordinary violation of its control
+        status, prob, info = run_ela_case(fi["stage"], fi["np_seed"])
+        if prob is None:
+            print("replay: the relation holds now (event_likelihood_adjustment=True and the control)", info)
+            return 0
+        print(f"replay C09 ISIMIP tas {fi['stage']} event_likelihood_adjustment=True sizes={info['sizes']}: {status}")
+        same = all(prob.get(k) == fi.get(k) for k in ("i", "j", "x_i", "x_j", "out_i", "out_j"))
+        if status == "known-ela" and (data.get("signature") or {}) == F22_SIGNATURE:
+            print(("REPRODUCED" if same else "REPRODUCED (another pair than the recorded one)") + ": " + describe(fi.get("what", ""), prob))
+        else:
+            print("replay: " + describe(fi.get("what", ""), prob))
         return 1
     if fi["kind"] == "sequence":
         if fi["debiaser"] == "ISIMIP":
